@@ -912,6 +912,22 @@ func (m *Model) evalCustom(n *Node, in MIn, path string, mn *MNode) {
 func (m *Model) evalPre(n *Node, in MIn, path string, mn *MNode) {
 	m.Expect = append(m.Expect, MCall{Node: n.ID, Kind: "pre", Idx: 0, Must: true})
 	switch n.CT {
+	case "rec_pass":
+		if m.Mode != "parse" {
+			m.abstain("record preprocess in validate")
+			return
+		}
+		if in.Missing || in.V.K != "m" {
+			// not a map[string]any: the function cannot be called, the node reports one coerce issue
+			m.issue(n, path, "coerce", "pre", 0)
+			mn.Issues++
+			mn.Failed = true
+			m.Expect = m.Expect[:len(m.Expect)-1]
+			m.Forbid = append(m.Forbid, MCall{Node: n.ID, Kind: "pre", Idx: 0})
+			return
+		}
+		inner := m.Eval(n.Elem, in, path)
+		mn.Val, mn.HasVal = inner.Val, inner.HasVal
 	case "str_list":
 		if m.Mode != "parse" {
 			m.abstain("str_list preprocess in validate")
